@@ -23,50 +23,62 @@
 (*      id Eq to id_j, once each, in both kinds of map.                    *)
 (* HASCMP (environment) = "1": the world's Storage stores the value and    *)
 (* supports == and <; otherwise it supports neither.                       *)
+(* TYPEDIG (environment) = "1": the world's Digester also looks at the C++ *)
+(* type (a std::string gets the next digest), so one value can carry two   *)
+(* different digests.  The statement does not say whether such ids are     *)
+(* equal when the Storage compares values, so there == is left free - but  *)
+(* whatever it answers must be an equivalence that < and the hash agree    *)
+(* with, and the maps must follow it.                                      *)
 (***************************************************************************)
 EXTENDS Naturals, Sequences, FiniteSets, TLC, Json, IOUtils
 
 TraceLog == ndJsonDeserialize(IOEnv.TRACE)
 HasCmp == IF "HASCMP" \in DOMAIN IOEnv THEN IOEnv.HASCMP = "1" ELSE FALSE
-VARIABLES ids,     \* the values the ids of this execution were built from, in order
+TypeDig == IF "TYPEDIG" \in DOMAIN IOEnv THEN IOEnv.TYPEDIG = "1" ELSE FALSE
+VARIABLES ids,     \* the <<value, C++ type>> probes the ids of this execution were built from, in order
+          eqs,     \* ordered pairs <<i, j>> with id_i == id_j observed
           seen,    \* ordered pairs whose facts are in
           lts,     \* ordered pairs <<i, j>> with id_i < id_j observed
           ordok,   \* the pair facts were complete and lawful
           dps,     \* <<map kind, position>> dispatched so far
           l
-vars == <<ids, seen, lts, ordok, dps, l>>
+vars == <<ids, eqs, seen, lts, ordok, dps, l>>
 
 R == INSTANCE AnyId WITH Vals <- 0..8, Types <- 0..2, Defects <- {}, done <- FALSE, hist <- <<>>
 
 Idx == 1..3
-Id(i) == R!IdOf(ids[i])
-EqAt(i, j) == R!Eq(Id(i), Id(j))
+Id(i) == [d |-> (ids[i][1] \div 3 + (IF TypeDig /\ ids[i][2] = 2 THEN 1 ELSE 0)) % 3, v |-> ids[i][1]]
+\* what the statement fixes about id_i == id_j: "yes", "no", or "free" (same value under two digests with a comparing Storage)
+EqRule(i, j) == IF ~HasCmp THEN (IF Id(i).d = Id(j).d THEN "yes" ELSE "no")
+                ELSE IF Id(i).v # Id(j).v THEN "no" ELSE IF Id(i).d = Id(j).d THEN "yes" ELSE "free"
+EqAt(i, j) == <<i, j>> \in eqs
 LtAt(i, j) == <<i, j>> \in lts
 Bool(b) == IF b THEN 1 ELSE 0
 Reached(j) == {i \in Idx : EqAt(i, j)}
 Mask(j) == (IF 1 \in Reached(j) THEN 1 ELSE 0) + (IF 2 \in Reached(j) THEN 2 ELSE 0) + (IF 3 \in Reached(j) THEN 4 ELSE 0)
 
-Init == ids = <<>> /\ seen = {} /\ lts = {} /\ ordok = FALSE /\ dps = {} /\ l = 1
+Init == ids = <<>> /\ eqs = {} /\ seen = {} /\ lts = {} /\ ordok = FALSE /\ dps = {} /\ l = 1
 E == TraceLog[l]
 Is(e) == l <= Len(TraceLog) /\ E.e = e /\ l' = l + 1
 
 EvId == /\ Is("id") /\ Len(ids) < 3 /\ E.o = Len(ids) + 1 /\ E.a \in 0..8 /\ E.b \in 0..2
-        /\ ids' = Append(ids, E.a) /\ UNCHANGED <<seen, lts, ordok, dps>>
+        /\ ids' = Append(ids, <<E.a, E.b>>) /\ UNCHANGED <<eqs, seen, lts, ordok, dps>>
 EvCmp == /\ Is("cmp") /\ Len(ids) = 3 /\ ~ordok /\ E.o \in Idx /\ E.a \in Idx /\ <<E.o, E.a>> \notin seen
-         /\ E.eq = Bool(EqAt(E.o, E.a))
+         /\ E.eq \in {0, 1} /\ (EqRule(E.o, E.a) = "yes" => E.eq = 1) /\ (EqRule(E.o, E.a) = "no" => E.eq = 0)
          /\ E.lt \in {0, 1} /\ E.he \in {0, 1}
-         /\ (EqAt(E.o, E.a) => E.he = 1)
+         /\ (E.eq = 1 => E.he = 1)
          /\ seen' = seen \cup {<<E.o, E.a>>}
+         /\ eqs' = IF E.eq = 1 THEN eqs \cup {<<E.o, E.a>>} ELSE eqs
          /\ lts' = IF E.lt = 1 THEN lts \cup {<<E.o, E.a>>} ELSE lts
          /\ UNCHANGED <<ids, ordok, dps>>
 EvOrd == /\ Is("ord") /\ ~ordok /\ seen = Idx \X Idx
-         /\ R!StrictWeakOn(Idx, LtAt, EqAt)
-         /\ ordok' = TRUE /\ UNCHANGED <<ids, seen, lts, dps>>
+         /\ R!EquivalenceOn(Idx, EqAt) /\ R!StrictWeakOn(Idx, LtAt, EqAt)
+         /\ ordok' = TRUE /\ UNCHANGED <<ids, eqs, seen, lts, dps>>
 EvDispatch == /\ Is("dp") /\ ordok /\ E.o \in {1, 2} /\ E.a \in Idx /\ <<E.o, E.a>> \notin dps
               /\ E.r = Mask(E.a) /\ E.b = Cardinality(Reached(E.a))
-              /\ dps' = dps \cup {<<E.o, E.a>>} /\ UNCHANGED <<ids, seen, lts, ordok>>
+              /\ dps' = dps \cup {<<E.o, E.a>>} /\ UNCHANGED <<ids, eqs, seen, lts, ordok>>
 EvReset == /\ Is("rs") /\ ordok /\ dps = {1, 2} \X Idx
-           /\ ids' = <<>> /\ seen' = {} /\ lts' = {} /\ ordok' = FALSE /\ dps' = {}
+           /\ ids' = <<>> /\ eqs' = {} /\ seen' = {} /\ lts' = {} /\ ordok' = FALSE /\ dps' = {}
 
 Next == EvId \/ EvCmp \/ EvOrd \/ EvDispatch \/ EvReset
 Report == IF TLCGet("stats").diameter - 1 = Len(TraceLog) THEN TRUE
